@@ -37,7 +37,7 @@ HIST_FILES = {"f.py": "x = 1\n", "g.c": "int x;\n", "h.html": "<p>x</p>\n", "j.j
 def bounds(tier, seed):
     return {"file_types": len(annot.file_types()), "line_modes": ["default", "--single-line", "--multi-line"], "bodies": BODIES,
             "styles": len(annot.styles()), "prefixes": PREFIXES if tier == "thorough" else "3 rotated by seed + default",
-            "year_options": list(YEAROPTS), "templates": ["default", "full", "hash.commented", "fixed-licence (default mode)", "extra-notice (default mode)"], "targets": ["in-file", "--force-dot-license"],
+            "year_options": list(YEAROPTS), "templates": ["default", "full", "hash.commented", "fixed-licence (default mode)", "extra-notice (default mode)"], "targets": ["in-file", "--force-dot-license", "--style on an uncommentable type", "--style on a binary file"],
             "history_menu": list(MENU), "history_files": list(HIST_FILES), "repetitions": 4}
 
 
@@ -56,6 +56,10 @@ def cases(tier, seed):
                             if tpl == "hash.commented" and st != "python":
                                 continue
                             yield {"k": "style", "style": st, "mode": mode, "prefix": p, "year": y, "tpl": tpl, "target": target}
+    for st in annot.styles():
+        for y in YEAROPTS:
+            for target in ("uncommentable+style", "binary+style"):
+                yield {"k": "style", "style": st, "mode": "default", "prefix": None, "year": y, "tpl": None, "target": target}
     for st in annot.styles():
         for tpl in ("fixed-licence", "extra-notice"):
             for y in YEAROPTS:
@@ -204,6 +208,16 @@ def ev_style(c) -> R:
         return r
     root = fresh_dir("c10")
     recipe = {"file.unknownext": "content line\nsecond\n"}
+    fname = "file.unknownext"
+    if c["target"] == "uncommentable+style":
+        # --style given for a file type that cannot carry comments: the header goes to FILE.license, in that style
+        fname = "data.json"
+        recipe = {fname: "{\"a\": 1}\n"}
+    elif c["target"] == "binary+style":
+        from ..lintutil import PNG_HEX
+
+        fname = "img.png"
+        recipe = {fname: {"hex": PNG_HEX}}
     if c["tpl"]:
         recipe.update(annot.template_recipe([c["tpl"]]))
     materialise(root, recipe)
@@ -219,7 +233,7 @@ def ev_style(c) -> R:
     if c["tpl"]:
         argv += ["--template", c["tpl"]]
     sig = f"{c['style']}|{c['mode']}|{c['target']}|tpl={c['tpl']}"
-    res = twice(r, root, argv, [root / "file.unknownext"], f"--style {c['style']} {c['mode']} {c['target']} prefix={c['prefix']} year={c['year']} tpl={c['tpl']}", sig)
+    res = twice(r, root, argv, [root / fname], f"--style {c['style']} {c['mode']} {c['target']} prefix={c['prefix']} year={c['year']} tpl={c['tpl']}", sig, n=3)
     r.outcome = "n/a" if res is None else f"exit{res.exit_code}"
     if res is not None and res.exit_code != 0:
         r.nontrivial = False
